@@ -1081,9 +1081,40 @@ fn random_alt(rng: &mut Rng, round: usize) -> o::Alt {
     o::Alt { std_off, dst_off, start, start_time, end, end_time }
 }
 
+/// rule whose start/end days are close to each other and whose UTC day times differ by k days -1/0/+1 s: the decision
+/// breakpoints of the constructor (C11's quantifier text)
+fn structured_alt(rng: &mut Rng) -> Option<o::Alt> {
+    let m = rng.range(1, 12);
+    let start = o::Day::M(m, rng.range(1, 5), rng.range(0, 6));
+    let end = match rng.next() % 4 {
+        0 => o::Day::M(m, rng.range(1, 5), rng.range(0, 6)),
+        1 => o::Day::M(m % 12 + 1, rng.range(1, 5), rng.range(0, 6)),
+        2 => o::Day::J1((o::cum(m, false) + rng.range(-6, 37)).clamp(1, 365)),
+        _ => o::Day::J0((o::cum(m, false) + rng.range(-7, 36)).clamp(0, 365)),
+    };
+    let (start, end) = if rng.next() % 2 == 0 { (start, end) } else { (end, start) };
+    let std_off = rng.pick(&[0i128, 3600, -89999, 93599, -18000]);
+    let dst_off = rng.pick(&[std_off + 3600, 93599, -89999, std_off]).clamp(-89999, 93599);
+    let k = rng.range(-23, 23);
+    let d = k * 86400 + rng.pick(&[-1i128, 0, 1]);
+    let rst = rng.range(-604799, 604799);
+    let start_time = rng.pick(&[0i128, 7200, 604799, -604799, rst]);
+    // d = (start_time - std_off) - (end_time - dst_off)
+    let end_time = start_time - std_off + dst_off - d;
+    if end_time.abs() >= 604800 {
+        return None;
+    }
+    Some(o::Alt { std_off, dst_off, start, start_time, end, end_time })
+}
+
 fn gen_c11(rng: &mut Rng, n: usize, emit: &mut dyn FnMut(Vec<i128>) -> bool) {
     for round in 0..n {
         let mut a = random_alt(rng, round);
+        if round % 3 != 0 {
+            if let Some(b) = structured_alt(rng) {
+                a = b;
+            }
+        }
         match round % 40 {
             1 => a.std_off = rng.pick(&[93600i128, -90000]),
             2 => a.dst_off = rng.pick(&[93600i128, -90000]),
